@@ -425,8 +425,22 @@ fn raw_script_in(t: &mut Tape, fmt: Fmt, timeline: bool, th06_std: bool, no_mask
                 if p.is_float() { vals.push(None); texts.push("1.5".to_string()); }
                 else { let v = if t.chance(2, 3) { *t.pick(B_ARG) } else { t.below(100) as i64 }; let v = if l.eosd_regs && (-10025..=-10001).contains(&v) { 7 } else { v }; vals.push(Some(v)); texts.push(format!("{}", v)); }
             }
-            out.push_str(&format!("    ins_{}({});\n", op, texts.join(", ")));
-            req.push(ReqInstr { time, opcode: op as i64, blob: vec![], mask: None, arg0: None, typed: Some((sig.print(), vals)) });
+            // sometimes with an explicit parameter mask (it must be stored as given, also on every copy of a difficulty-switched
+            // instruction) and, in ECL, with one integer argument written as a four-way difficulty switch
+            let mut pseudo = String::new(); let mut mask = None;
+            if matches!(fmt, Fmt::Anm | Fmt::Ecl) && !timeline && !no_mask && t.chance(1, 3) { let m = *t.pick(&[1i64, 0, 2, 3, 255]); mask = Some(m); pseudo = format!("@mask={}, ", m); }
+            let int_pos: Vec<usize> = vals.iter().enumerate().filter(|(_, v)| v.is_some()).map(|(i, _)| i).collect();
+            if fmt == Fmt::Ecl && !timeline && !int_pos.is_empty() && t.chance(1, 3) {
+                let k = *t.pick(&int_pos);
+                let base = vals[k].unwrap();
+                let alts: Vec<i64> = vec![base, (base ^ 1), (base ^ 2), (base ^ 3)];
+                texts[k] = format!("{}:{}:{}:{}", alts[0], alts[1], alts[2], alts[3]);
+                out.push_str(&format!("    ins_{}({}{});\n", op, pseudo, texts.join(", ")));
+                for a in alts { let mut v2 = vals.clone(); v2[k] = Some(a); req.push(ReqInstr { time, opcode: op as i64, blob: vec![], mask, arg0: None, typed: Some((sig.print(), v2)) }); }
+                continue;
+            }
+            out.push_str(&format!("    ins_{}({}{});\n", op, pseudo, texts.join(", ")));
+            req.push(ReqInstr { time, opcode: op as i64, blob: vec![], mask, arg0: None, typed: Some((sig.print(), vals)) });
             continue;
         }
         if t.chance(1, 3) { time = if t.chance(1, 2) { *t.pick(B_TIME) } else { t.below(200) as i64 }; out.push_str(&format!("{}:\n", time)); }
